@@ -182,8 +182,22 @@ func VerifC04_SetMatrix() {
 	funcVerdict := rt.Bool("validationfunc.ok")
 	errInvalid := errors.New("not valid") // (package init is not executed by the engine)
 	if rt.Bool("hasvalidationfunc") {
-		o.ValidationFunc = func(interface{}) error {
-			if funcVerdict {
+		// (a validation function as users of the package write them: it
+		// expects the value in the option type's own Go type - int64, string,
+		// bool, []string - whatever type the caller or a JSON document had)
+		o.ValidationFunc = func(val interface{}) error {
+			canonical := false
+			switch val.(type) {
+			case int64:
+				canonical = optType == OptTypeInt
+			case string:
+				canonical = optType == OptTypeString
+			case bool:
+				canonical = optType == OptTypeBool
+			case []string:
+				canonical = optType == OptTypeStringArray
+			}
+			if funcVerdict && canonical {
 				return nil
 			}
 			return errInvalid
